@@ -227,12 +227,18 @@ impl<Effect, Event> Command<Effect, Event> {
         //
         // Note that there is an exception: the task may have used the waker and dropped it,
         // making it ready, rather than abandoned.
+        //
+        // The number of waker copies has to be read *before* the `woken` flag: a wake on another
+        // thread sets the flag and may then drop the last copy. Reading in the opposite order
+        // can miss the flag and still see a single copy, evicting a task which was just woken.
+        let waker_copies = Arc::strong_count(&arc_waker);
+        std::sync::atomic::fence(Ordering::Acquire);
         #[cfg(feature = "verif")]
         crate::verif::point("cmd.before_woken_load");
         let task_is_ready = arc_waker.woken.load(Ordering::Acquire);
         #[cfg(feature = "verif")]
         crate::verif::point("cmd.after_woken_load");
-        if result == TaskState::Suspended && !task_is_ready && Arc::strong_count(&arc_waker) < 2 {
+        if result == TaskState::Suspended && !task_is_ready && waker_copies < 2 {
             return TaskState::Cancelled;
         }
 
